@@ -8,7 +8,7 @@ fn run_cov(recs: &[Vec<u8>], k: usize, bs: usize, bc: usize, norm: bool, threads
 
 fn run_cov_alt(recs: &[Vec<u8>], alt: Option<&[Vec<u8>]>, k: usize, bs: usize, bc: usize, norm: bool, threads: usize, mem: f64) -> Result<String, String> {
     let sc = Scratch::new("cov");
-    let inp = sc.path("in.fa");
+    let inp = sc.path(in_name());
     let outd = sc.path("out");
     std::fs::create_dir_all(&outd).unwrap();
     write_fasta(&inp, recs);
@@ -84,6 +84,17 @@ pub fn c08(o: &Opts) -> Outcome {
             if let Some(w) = c08_batch(&recs, k, 2, 3, true, 2, mem) { return Outcome { cases, witness: Some(w) }; }
         }
     }
+    // multi-member gzip input; a counting pass that holds only records without any k-mer, followed by more records
+    {
+        let recs: Vec<Vec<u8>> = vec![b"ACGTACGTTTGACCAGG".to_vec(), b"GGATCCATTGAC".to_vec(), b"ACGTACGTTTGACCAGG".to_vec(), b"TTGACCATGG".to_vec(), b"AC".to_vec()];
+        cases += 1;
+        if let Some(w) = with_gzm(|| c08_batch(&recs, 5, 2, 4, false, 2, 6.0)) { return Outcome { cases, witness: Some(w) }; }
+        let recs: Vec<Vec<u8>> = vec![b"AAAAAAAA".to_vec(), b"NNNNNNNN".to_vec(), b"AAAAAAAA".to_vec()];
+        for (threads, mem) in [(1usize, 5e-9f64), (1, 1e-8), (2, 5e-9)] {
+            cases += 1;
+            if let Some(w) = c08_batch(&recs, 4, 4, 4, false, threads, mem) { return Outcome { cases, witness: Some(w) }; }
+        }
+    }
     // multiplicities that are exact multiples of the bin size (bin boundaries), many bins, multi-chunk counting
     for bs in [3usize, 5, 7, 10, 49, 98, 107] {
         for mult in [1usize, 2, 3] {
@@ -116,7 +127,7 @@ pub fn c08(o: &Opts) -> Outcome {
     // one computer object used twice with a different counting input in between: the second result uses the second table
     {
         let sc = Scratch::new("cov2");
-        let inp = sc.path("in.fa"); let alt = sc.path("alt.fa"); let outd = sc.path("out"); let fresh = sc.path("fresh");
+        let inp = sc.path(in_name()); let alt = sc.path("alt.fa"); let outd = sc.path("out"); let fresh = sc.path("fresh");
         std::fs::create_dir_all(&outd).unwrap(); std::fs::create_dir_all(&fresh).unwrap();
         let recs = vec![b"ACGTACGTACGTACGTACGTTTTTTTTT".to_vec()];
         write_fasta(&inp, &recs);
